@@ -13,7 +13,7 @@ EXPLANATION = (
     "in-memory files; (R3) the undo is complete (C04-R1/R2 re-reported); (R4) the parallel save phase starts only after the "
     "collected worker errors were inspected with an early return; (R5) main exits with status 1 on the Err and Ok(false) arms "
     "and does not exit on Ok(true), and cmd_push returns Ok(skipped == 0) with applied/skipped derived from the applied "
-    "count; (R7) a refused rename moves the content back into the record it was taken from before returning \"not applied\". Not decided: that the saved contents equal the first k patches (value level)."
+    "count; (R7) a refused rename moves the content back into the record it was taken from before returning \"not applied\". (R6b) no entry leaves the file map before it is saved; (R3f) the state of a file is only written where the undo records it. Not decided: that the saved contents equal the first k patches (value level)."
 )
 LEVEL_NOTE = "Undecided: equality of saved file contents with the first k patches; diagnostics crashes that are value-level."
 
